@@ -22,6 +22,7 @@ from . import kern_spec as KS
 T_MAIN = int(os.environ.get("KERNVC_TIMEOUT_S", "20"))
 T_EXT = int(os.environ.get("KERNVC_EXT_TIMEOUT_S", "30"))
 T_CANARY = 4
+T_QUICK = 3
 DEPTH = 3
 
 _JOBS = []
@@ -289,36 +290,46 @@ def _fork_all(funcs, timeout_s):
                 os._exit(code)
         os.close(w)
         kids.append((pid, r))
-    results = []
     deadline = time.time() + timeout_s
-    for pid, r in kids:
-        buf = b""
-        while True:
-            left = deadline - time.time()
-            if left <= 0:
-                break
-            ready, _, _ = select.select([r], [], [], left)
-            if not ready:
-                break
+    bufs = {r: b"" for _, r in kids}
+    open_fds = set(bufs)
+    done = {}
+    stop = False
+    while open_fds and not stop:
+        left = deadline - time.time()
+        if left <= 0:
+            break
+        ready, _, _ = select.select(list(open_fds), [], [], left)
+        if not ready:
+            break
+        for r in ready:
             chunk = os.read(r, 65536)
-            if not chunk:
-                break
-            buf += chunk
-        os.close(r)
-        try:
-            os.kill(pid, 0)
-            if time.time() >= deadline:
+            if chunk:
+                bufs[r] += chunk
+                continue
+            open_fds.discard(r)
+            try:
+                done[r] = json.loads(bufs[r].decode())
+            except Exception:
+                done[r] = None
+            if done[r] and done[r].get("r") == "unsat":
+                stop = True             # one stage proved it: the others are not needed
+    results = []
+    for pid, r in kids:
+        if r in open_fds:
+            try:
                 os.kill(pid, 9)
-        except OSError:
-            pass
+            except OSError:
+                pass
+        os.close(r)
         try:
             os.waitpid(pid, 0)
         except OSError:
             pass
-        try:
-            results.append(json.loads(buf.decode()))
-        except Exception:
-            results.append({"r": "unknown", "log": ["stage process gave no answer (timeout/crash)"]})
+        out = done.get(r)
+        if out is None:
+            out = {"r": "unknown", "log": ["stage stopped (another stage answered / timeout / crash)"]}
+        results.append(out)
     return results
 
 
@@ -333,8 +344,11 @@ def solve_job(i):
         tmo = T_CANARY if kind == "canary" else T_MAIN
         ga = ground_closure(specs, base)
         res = {"status": "unknown", "backend": "z3", "detail": "", "model_inputs": None}
-        s0, r0, dt0 = _check([abstract_nl(f) for f in base + ga] + nl_axioms(), tmo)
-        log = ["stage0(z3,ground,products as UF):%s/%.2fs" % (r0, dt0)]
+        abstracted = [abstract_nl(f) for f in base + ga] + nl_axioms()
+        # quick first attempt (proofs take milliseconds); if it does not succeed the full-budget
+        # attempt runs concurrently with the exact stages below
+        s0, r0, dt0 = _check(abstracted, min(tmo, T_QUICK))
+        log = ["stage0(z3,ground,products as UF,%ds):%s/%.2fs" % (min(tmo, T_QUICK), r0, dt0)]
         if r0 == "unsat":
             res.update(status="unsat", backend="z3", time=time.time() - t0, detail=log[0])
             return res
@@ -386,13 +400,19 @@ def solve_job(i):
                     break
             return {"r": r, "backend": bk, "log": ["stageC(%s):%s" % o for o in outs]}
 
-        outs = _fork_all([stage_a, stage_b, stage_c], tmo + T_EXT + 30)
-        a, b, c = outs
+        def stage_0():
+            s0f, r0f, dt0f = _check(abstracted, tmo)
+            return {"r": r0f, "log": ["stage0(full budget):%s/%.2fs" % (r0f, dt0f)]}
+
+        outs = _fork_all([stage_a, stage_b, stage_c, stage_0], tmo + T_EXT + 30)
+        a, b, c, z = outs
         for o in outs:
             log.extend(o.get("log", []))
         res["model_inputs"] = a.get("model_inputs")
-        if a["r"] == "unsat":
+        if z["r"] == "unsat":
             res.update(status="unsat", backend="z3")
+        elif a["r"] == "unsat":
+            res.update(status="unsat", backend="z3-nla")
         elif b["r"] == "unsat":
             res.update(status="unsat", backend="z3+ematch")
         elif c["r"] == "unsat":
